@@ -63,6 +63,12 @@ class Ctx:
         self.broken = []          # names of theorems / correspondences that no longer check
         self.coverage = {}
         self.assumptions = []
+        import glob
+        for f in glob.glob(os.path.join(VERIF, "replay", "%s_*_%d.json" % (prop, seed))):
+            try:
+                os.remove(f)
+            except OSError:
+                pass
 
     def elapsed(self):
         return time.time() - self.t0
